@@ -160,11 +160,24 @@ package cert
 //@ axiom key_sound forall b crypto.Base, s hotstuff.QuorumSignature, c int :: {kvalid(b, vkeyc(s, c))} kvalid(b, vkeyc(s, c)) ==> vok(b, s, c)
 //@ pred cinv(cache *Cache) = cache.impl != nil && cache.entries != nil && (forall k string :: {has(cache.entries, k)} has(cache.entries, k) ==> kvalid(cache.impl, k))
 
-//@ func writeSigners
-//@   trusted passes a closure to IDSet.ForEach (iterator contract not modelled); appends the count and the ids of the claimed signers
+// writeSigners: the framing the cache key gives the claimed signers. The chunk equation the
+// callers use (signerbytes / signerlen are uninterpreted functions of the signature: the bytes
+// depend on the order in which the participant set is iterated, which the iterator contract
+// leaves open) is an assumption; what is verified against the code (ghost trace `ws` of the
+// builder writes): the first write is the 4-byte count of claimed signers, every claimed
+// signer's 4-byte id is written, and nothing else is.
+//@ func writeSigners property C11
+//@   opt trusted-posts chunk
 //@   requires key != nil && signature != nil
-//@   ensures bchain(key) == bcat(old(bchain(key)), signerbytes(signature), signerlen(signature))
-//@   modifies *key
+//@   ghost at call Builder.Write :: emit ws(content(op1), len(op1))
+//@   ensures [chunk] bchain(key) == bcat(old(bchain(key)), signerbytes(signature), signerlen(signature))
+//@   ensures [count-first] tracelen(ws) >= old(tracelen(ws)) + 1 && traceat(ws, 0, old(tracelen(ws))) == abytes(aput(0, 0, 4, wrapu32(hotstuff.setlen(hotstuff.parts(signature))))) && traceat(ws, 1, old(tracelen(ws))) == 4
+//@   ensures [every-claimed-signer-written] forall x hotstuff.ID :: {hotstuff.setmem(hotstuff.parts(signature), x)} hotstuff.setmem(hotstuff.parts(signature), x) ==> (exists k int :: {traceat(ws, 0, k)} old(tracelen(ws)) < k && k < tracelen(ws) && traceat(ws, 0, k) == abytes(aput(0, 0, 4, x)) && traceat(ws, 1, k) == 4)
+//@   ensures [only-claimed-signers-written] forall k int :: {traceat(ws, 0, k)} old(tracelen(ws)) < k && k < tracelen(ws) ==> (exists x hotstuff.ID :: {hotstuff.setmem(hotstuff.parts(signature), x)} hotstuff.setmem(hotstuff.parts(signature), x) && traceat(ws, 0, k) == abytes(aput(0, 0, 4, x)))
+//@   loop iter0 invariant [first] tracelen(ws) >= old(tracelen(ws)) + 1 && traceat(ws, 0, old(tracelen(ws))) == abytes(aput(0, 0, 4, wrapu32(hotstuff.setlen(hotstuff.parts(signature))))) && traceat(ws, 1, old(tracelen(ws))) == 4
+//@   loop iter0 invariant [written] forall x hotstuff.ID :: {visited(iter0, x)} visited(iter0, x) ==> (exists k int :: {traceat(ws, 0, k)} old(tracelen(ws)) < k && k < tracelen(ws) && traceat(ws, 0, k) == abytes(aput(0, 0, 4, x)) && traceat(ws, 1, k) == 4)
+//@   loop iter0 invariant [only] forall k int :: {traceat(ws, 0, k)} old(tracelen(ws)) < k && k < tracelen(ws) ==> (exists x hotstuff.ID :: {hotstuff.setmem(hotstuff.parts(signature), x)} hotstuff.setmem(hotstuff.parts(signature), x) && traceat(ws, 0, k) == abytes(aput(0, 0, 4, x)))
+//@   modifies *key, trace(ws)
 
 //@ func (*Cache).evict property C11
 //@   trusted container/list is not modelled (Back/Remove and the type assertion on the element value); eviction only removes entries
@@ -187,13 +200,13 @@ package cert
 //@   requires cinv(cache) && signature != nil
 //@   ensures [sound] result == nil ==> vok(cache.impl, signature, content(message))
 //@   ensures [inv] cinv(cache)
-//@   modifies cache.entries[*], cache.accessOrder, alloc
+//@   modifies cache.entries[*], cache.accessOrder, trace(ws), alloc
 //@   preserves Cache
 
 //@ func (*Cache).Sign property C11
 //@   requires cinv(cache)
 //@   ensures [inv] cinv(cache)
-//@   modifies cache.entries[*], cache.accessOrder, alloc
+//@   modifies cache.entries[*], cache.accessOrder, trace(ws), alloc
 //@   preserves Cache
 
 // Cache entries are created only through insert, and insert is reached only from the three
@@ -201,3 +214,31 @@ package cert
 // under contract: see the not-decided clauses of C11).
 //@ census C11 calls security/cert.(*Cache).insert within security/cert.(*Cache).Sign, security/cert.(*Cache).Verify, security/cert.(*Cache).BatchVerify
 //@ census C11 writes security/cert.Cache.entries within security/cert.NewAuthority
+
+// ---- BatchVerify (C11: "the key is derived from the ordered batch of messages"). What is
+// hashed (ghost trace `hw` of the writes to the hasher, ghost trace `hid` of the ids put into
+// the header) is, for the keys of the batch in strictly ascending order, each exactly once:
+// the 12-byte header holding the id (4 bytes at 0) and the message length (8 bytes at 4),
+// followed by the message itself. The verdict structure: a hit returns nil without asking
+// impl; otherwise impl's verdict is returned unchanged and the key is inserted only after impl
+// accepted. Not proved: that the key names the verdict (the digest value is outside the
+// model; the explicit assumption at the call of insert says so).
+//@ pure func bhdr(id hotstuff.ID, n int) int = abytes(aput(aput(0, 0, 4, id), 4, 8, n))
+//@ func (*Cache).BatchVerify property C11
+//@   requires cinv(cache) && signature != nil && (forall id hotstuff.ID :: {has(batch, id)} has(batch, id) ==> len(batch[id]) <= 281474976710656)
+//@   ghost at call Hash.Write :: emit hw(content(op1), len(op1))
+//@   ghost at call PutUint32 :: emit hid(op2)
+//@   ghost at call BatchVerify :: emit asked(1)
+//@   ghost at call insert :: emit inserted(tracelen(asked))
+//@   ghost at call insert :: assume kvalid(cache.impl, op1)
+//@   ensures [ids-are-the-keys-ascending] tracelen(hid) == old(tracelen(hid)) + len(batch) && (forall k int :: {traceat(hid, 0, k)} old(tracelen(hid)) <= k && k < tracelen(hid) ==> has(batch, traceat(hid, 0, k))) && (forall k int, m int :: {traceat(hid, 0, k), traceat(hid, 0, m)} old(tracelen(hid)) <= k && k < m && m < tracelen(hid) ==> traceat(hid, 0, k) < traceat(hid, 0, m))
+//@   ensures [hashed-header-then-message] tracelen(hw) == old(tracelen(hw)) + 2 * len(batch) && (forall k int :: {traceat(hid, 0, k)} old(tracelen(hid)) <= k && k < tracelen(hid) ==> traceat(hw, 0, old(tracelen(hw)) + 2 * (k - old(tracelen(hid)))) == bhdr(traceat(hid, 0, k), len(batch[traceat(hid, 0, k)])) && traceat(hw, 1, old(tracelen(hw)) + 2 * (k - old(tracelen(hid)))) == 12 && traceat(hw, 0, old(tracelen(hw)) + 2 * (k - old(tracelen(hid))) + 1) == content(batch[traceat(hid, 0, k)]) && traceat(hw, 1, old(tracelen(hw)) + 2 * (k - old(tracelen(hid))) + 1) == len(batch[traceat(hid, 0, k)]))
+//@   ensures [asks-impl-at-most-once] tracelen(asked) <= old(tracelen(asked)) + 1
+//@   ensures [error-is-impls] result != nil ==> tracelen(asked) == old(tracelen(asked)) + 1 && tracelen(inserted) == old(tracelen(inserted))
+//@   ensures [inserts-only-after-impl-accepted] tracelen(inserted) <= old(tracelen(inserted)) + 1 && (tracelen(inserted) > old(tracelen(inserted)) ==> result == nil && tracelen(asked) == old(tracelen(asked)) + 1 && traceat(inserted, 0, old(tracelen(inserted))) == tracelen(asked))
+//@   ensures [inv] cinv(cache)
+//@   loop 0 invariant [ids] tracelen(hid) == old(tracelen(hid)) + rangeindex + 1 && (forall k int :: {traceat(hid, 0, k)} old(tracelen(hid)) <= k && k < tracelen(hid) ==> traceat(hid, 0, k) == ids[k - old(tracelen(hid))])
+//@   loop 0 invariant [hashed] tracelen(hw) == old(tracelen(hw)) + 2 * (rangeindex + 1) && (forall k int :: {traceat(hid, 0, k)} old(tracelen(hid)) <= k && k < tracelen(hid) ==> traceat(hw, 0, old(tracelen(hw)) + 2 * (k - old(tracelen(hid)))) == bhdr(traceat(hid, 0, k), len(batch[traceat(hid, 0, k)])) && traceat(hw, 1, old(tracelen(hw)) + 2 * (k - old(tracelen(hid)))) == 12 && traceat(hw, 0, old(tracelen(hw)) + 2 * (k - old(tracelen(hid))) + 1) == content(batch[traceat(hid, 0, k)]) && traceat(hw, 1, old(tracelen(hw)) + 2 * (k - old(tracelen(hid))) + 1) == len(batch[traceat(hid, 0, k)]))
+//@   loop 0 invariant [quiet] tracelen(asked) == old(tracelen(asked)) && tracelen(inserted) == old(tracelen(inserted)) && cinv(cache)
+//@   modifies cache.entries[*], cache.accessOrder, trace(hw), trace(hid), trace(asked), trace(inserted), trace(ws), alloc
+//@   preserves Cache
